@@ -10,79 +10,102 @@ import (
 	"golang.org/x/tools/go/ssa"
 )
 
-// ruleSQLStoreReachesMain: in the function that opens the database and starts the witness, the store built on that
-// database is the one handed to omniwitness.Main: a store that is built and then dropped (a shadowed variable) leaves the
-// witness on the in-memory store while the database file looks in use — nothing survives a restart.
+// ruleSQLStoreReachesMain: a store built on the opened database (any constructor of the SQL store package) is put to use:
+// it flows into an argument of omniwitness.Main or of another function of the module, or is returned to the caller. A
+// store that is built and then dropped (a shadowed variable that only ever has a method called on it) leaves the witness
+// on another store while the database file looks in use — nothing survives a restart.
 func ruleSQLStoreReachesMain(w *World, r *Run, rule string) {
+	isCtor := func(cc *ssa.CallCommon) bool {
+		sc := cc.StaticCallee()
+		if sc == nil || pkgPathOf(sc) != pSQL || sc.Signature.Recv() != nil || sc.Signature.Results().Len() == 0 {
+			return false
+		}
+		return strings.Contains(typeStr(sc.Signature.Results().At(0).Type()), "LogStatePersistence")
+	}
 	n := 0
 	for _, fn := range w.prodFns() {
-		var built []ssa.Value
-		var mains []ssa.CallInstruction
-		for _, b := range fn.Blocks {
-			for _, in := range b.Instrs {
-				c, ok := in.(ssa.CallInstruction)
-				if !ok {
-					continue
-				}
-				switch ssaCallName(c.Common()) {
-				case pSQL + ".NewPersistence":
-					if v, ok := in.(ssa.Value); ok {
-						built = append(built, v)
-					}
-				case fnMain:
-					mains = append(mains, c)
-				}
-			}
-		}
-		if len(built) == 0 || len(mains) == 0 {
+		if pkgPathOf(fn) == pSQL {
 			continue
 		}
-		n++
-		// backward slice of the persistence argument of Main
-		reach := map[ssa.Value]bool{}
-		var walk func(v ssa.Value, d int)
-		walk = func(v ssa.Value, d int) {
-			if v == nil || reach[v] || d > 12 {
-				return
-			}
-			reach[v] = true
-			switch x := v.(type) {
-			case *ssa.Phi:
-				for _, e := range x.Edges {
-					walk(e, d+1)
+		for _, b := range fn.Blocks {
+			for _, in := range b.Instrs {
+				c, ok := in.(*ssa.Call)
+				if !ok || !isCtor(&c.Call) {
+					continue
 				}
-			case *ssa.MakeInterface:
-				walk(x.X, d+1)
-			case *ssa.ChangeInterface:
-				walk(x.X, d+1)
-			case *ssa.ChangeType:
-				walk(x.X, d+1)
-			case *ssa.UnOp:
-				walk(x.X, d+1)
-				if al, ok := x.X.(*ssa.Alloc); ok {
-					for _, ref := range *al.Referrers() {
-						if st, ok := ref.(*ssa.Store); ok && st.Addr == al {
-							walk(st.Val, d+1)
+				n++
+				// forward slice of the built value
+				seen := map[ssa.Value]bool{}
+				used := false
+				var walk func(v ssa.Value, d int)
+				walk = func(v ssa.Value, d int) {
+					if v == nil || seen[v] || d > 12 || used {
+						return
+					}
+					seen[v] = true
+					refs := v.Referrers()
+					if refs == nil {
+						return
+					}
+					for _, ref := range *refs {
+						switch x := ref.(type) {
+						case *ssa.Return:
+							used = true
+						case *ssa.Phi:
+							walk(x, d+1)
+						case *ssa.MakeInterface:
+							walk(x, d+1)
+						case *ssa.ChangeInterface:
+							walk(x, d+1)
+						case *ssa.ChangeType:
+							walk(x, d+1)
+						case *ssa.Extract:
+							if x.Index == 0 {
+								walk(x, d+1)
+							}
+						case *ssa.Store:
+							if x.Val == v {
+								if al, ok := x.Addr.(*ssa.Alloc); ok {
+									for _, ar := range *al.Referrers() {
+										if u, ok := ar.(*ssa.UnOp); ok && u.X == al {
+											walk(u, d+1)
+										}
+										if mc, ok := ar.(*ssa.MakeClosure); ok {
+											_ = mc
+											used = true // captured by a closure: handed on
+										}
+									}
+								} else {
+									used = true // stored into a longer-lived structure
+								}
+							}
+						case ssa.CallInstruction:
+							cc := x.Common()
+							for ai, a := range cc.Args {
+								if a != v {
+									continue
+								}
+								if cc.IsInvoke() {
+									used = true
+								} else if sc := cc.StaticCallee(); sc != nil {
+									if sc.Signature.Recv() != nil && ai == 0 {
+										continue // only a method called on it
+									}
+									used = true
+								} else {
+									used = true
+								}
+							}
 						}
 					}
 				}
-			case *ssa.Extract:
-				walk(x.Tuple, d+1)
+				walk(c, 0)
+				r.Check(used, rule, funcNameOrSSA(outermost(fn))+" | a store built on the database is put to use", w.pos(c.Pos()), "the SQL store built here is never handed on (a shadowed or dropped variable: at most a method is called on it): the witness runs on another store and the database stays empty, so a restart forgets every acknowledged checkpoint")
 			}
-		}
-		for _, m := range mains {
-			for _, a := range m.Common().Args {
-				if strings.Contains(typeStr(a.Type()), "LogStatePersistence") {
-					walk(a, 0)
-				}
-			}
-		}
-		for _, bv := range built {
-			r.Check(reach[bv], rule, funcNameOrSSA(outermost(fn))+" | the store built on the database is the one the witness runs on", w.pos(bv.Pos()), "the SQL store built here never reaches omniwitness.Main (a shadowed or dropped variable): the witness runs on another store and the database stays empty, so a restart forgets every acknowledged checkpoint")
 		}
 	}
 	if n == 0 {
-		r.Undecided(rule, "function that builds the SQL store and starts the witness", "", "not found")
+		r.Undecided(rule, "construction of the SQL store outside its package", "", "not found")
 	}
 }
 
